@@ -358,10 +358,15 @@ def gen_plain_diff(rng, nfiles=None):
 def gen_combined_diff(rng, conflict=None):
     """`git diff` during a merge: combined diff with two parents, optionally a conflict region."""
     p = rng.choice(PATHS)
-    lines = [f"diff --cc {p}", "index 1111111,2222222..0000000", f"--- a/{p}", f"+++ b/{p}", "@@@ -1,5 -1,5 +1,9 @@@"]
+    start = rng.choice([1, 1, 7, 50, 1200])
+    frag = rng.choice(["", "", " fn main() {", " class Foo:", " impl Bar for Baz {"])
+    lines = [f"diff --cc {p}", "index 1111111,2222222..0000000", f"--- a/{p}", f"+++ b/{p}",
+             f"@@@ -{start},5 -{start},5 +{start},9 @@@{frag}"]
     body = lambda: rng.choice([b for b in BODIES if not b.startswith(("<<<", "===", ">>>"))])
     hl = []
-    for _ in range(rng.randint(1, 3)):
+    has_conflict = conflict if conflict is not None else rng.random() < 0.7
+    # a conflict at the top of a file makes the region the first thing in its hunk (no line before it)
+    for _ in range(rng.randint(0 if has_conflict and rng.random() < 0.3 else 1, 3)):
         hl.append((rng.choice(["  ", "  ", "+ ", " +", "- ", " -", "++", "--"]), body()))
     def gen_region():
         ours = [body() for _ in range(rng.randint(0, 3))]
@@ -370,7 +375,7 @@ def gen_combined_diff(rng, conflict=None):
         return dict(ours=ours, anc=anc, theirs=theirs)
     region = None
     regions = []
-    if conflict if conflict is not None else rng.random() < 0.7:
+    if has_conflict:
         # one region mostly; sometimes several in one run (state carried from one region to the next)
         regions = [gen_region() for _ in range(rng.choice([1, 1, 1, 2, 2, 3]))]
         region = regions[0]
@@ -390,7 +395,8 @@ def gen_combined_diff(rng, conflict=None):
     tail = [("  ", body()) for _ in range(rng.randint(0, 2))]
     for pre, b in tail:
         lines.append(pre + b)
-    f = dict(kind="combined", old=p, new=p, lines=lines, first_line=0, pre_lines=hl, region=region, tail=tail, hunks=[])
+    f = dict(kind="combined", old=p, new=p, lines=lines, first_line=0, pre_lines=hl, region=region, tail=tail, hunks=[],
+             combined_hunk=dict(frag=frag, start=start))
     return lines, [f]
 
 
